@@ -51,9 +51,11 @@ def family(tier):
             yield L(p) + N("-") + N("~")
             yield N("[." + p + ".]-~")
         if p >= "!":
-            yield N("!-") + N(p)
-            yield N("!-") + L(p)
-            yield N("!-[." + p + ".]")
+            # ranges that END at the probe character; the low end point is a space ('!' would be read
+            # as the complement marker when the range is the first member)
+            yield N(" -") + N(p)
+            yield N(" -") + L(p)
+            yield N(" -[." + p + ".]")
         yield N("[." + p + ".]")
         yield N("[=" + p + "=]")
         yield N("[.") + L(p) + N(".]")
